@@ -31,6 +31,8 @@ func cmdRun(args []string) int {
 	qto := fs.Duration("qto", 10*time.Second, "solver query timeout")
 	jsonOut := fs.String("json", "", "write result JSON here")
 	sleep := fs.Bool("sleep", true, "sleep-set reduction")
+	delay := fs.Int("delay", -1, "delay bound (>= 0: delay-bounded exploration, no sleep sets)")
+	goOrder := fs.Bool("goorder", false, "order scheduling alternatives like a single-P Go runtime")
 	solverKind := fs.String("solver", "z3", "z3 | z3-new | cvc5")
 	outcomes := fs.Bool("outcomes", false, "print the set of distinct observation tuples")
 	cpuprof := fs.String("cpuprofile", "", "write CPU profile")
@@ -43,7 +45,7 @@ func cmdRun(args []string) int {
 	}
 	cfg := interp.Config{Workers: *workers, ConcretizeCap: *ccap, PreemptionBound: *pb, MaxSteps: *steps,
 		MaxConcreteAlloc: 1 << 22, MaxPaths: *maxPaths, RaceDetect: *race, QueryTimeout: *qto, Verbose: *verbose,
-		Trace: *trace, KeepSamples: 2000, SleepSets: *sleep, Solver: *solverKind}
+		Trace: *trace, KeepSamples: 2000, SleepSets: *sleep, Solver: *solverKind, DelayBound: *delay, GoOrder: *goOrder}
 	e, s, err := loadEngine(*verif, *repo, []string{*sub}, cfg)
 	if err != nil {
 		fmt.Fprintln(os.Stderr, "load:", err)
